@@ -94,8 +94,10 @@ pub fn parse_request(input: &[u8]) -> Parse {
         let name = String::from_utf8(rest[..j].to_vec()).unwrap();
         j += 1;
         if j >= rest.len() { return Parse::Incomplete("header-separator") }
-        if rest[j] != b' ' { return Parse::Invalid("header-value", "no-space-after-colon") }
-        j += 1;
+        // `Name:value` / `Name:\tvalue` is valid HTTP/1.1 (RFC 9112: field-name ":" OWS field-value OWS) but outside the supported
+        // subset of the statement (`Name: value`): refusing it and accepting it with the OWS-trimmed value are both admitted
+        let no_single_space = rest[j] != b' ';
+        if no_single_space { open.push("no-space-after-colon") } else { j += 1 }
         let vstart = j;
         while j < rest.len() && rest[j] != b'\r' {
             let b = rest[j];
@@ -107,7 +109,8 @@ pub fn parse_request(input: &[u8]) -> Parse {
         }
         if j + 1 >= rest.len() { return Parse::Incomplete("header-value") }
         if rest[j + 1] != b'\n' { return Parse::Invalid("header-value", "bare-cr") }
-        let value = rest[vstart..j].to_vec();
+        let mut value = rest[vstart..j].to_vec();
+        if no_single_space { while matches!(value.first(), Some(b' ' | b'\t')) { value.remove(0); } while matches!(value.last(), Some(b' ' | b'\t')) { value.pop(); } }
         if value.first() == Some(&b' ') || value.last() == Some(&b' ') || value.first() == Some(&b'\t') || value.last() == Some(&b'\t') { open.push("whitespace-around-value") }
         headers.push((name, value));
         i += j + 2;
@@ -187,7 +190,7 @@ mod t {
         assert_eq!(parse_request(b"GET / HT"), Parse::Incomplete("version"));
         assert_eq!(parse_request(b"GET / HTTP/1.0\r\n\r\n"), Parse::Invalid("request-line", "version"));
         assert_eq!(parse_request(b"GET /\r\n\r\n"), Parse::Invalid("request-line", "no-second-space"));
-        assert_eq!(parse_request(b"GET / HTTP/1.1\r\nA:b\r\n\r\n"), Parse::Invalid("header-value", "no-space-after-colon"));
+        assert!(matches!(parse_request(b"GET / HTTP/1.1\r\nA:b\r\n\r\n"), Parse::Complete(r) if r.open == vec!["no-space-after-colon"] && r.headers == vec![("A".to_string(), b"b".to_vec())]));
         assert_eq!(parse_request(b"GET / HTTP/1.1\r\nContent-Length: 5\r\n\r\nab"), Parse::Incomplete("body"));
         assert_eq!(parse_request(b"GE"), Parse::Incomplete("method"));
         assert_eq!(parse_request(b"get / HTTP/1.1\r\n\r\n"), Parse::Invalid("request-line", "method"));
